@@ -72,6 +72,31 @@ impl Report {
             self.oracle_failures.push(json!({"signature": signature, "what": what, "case": case}));
         }
     }
+    /// Fold a worker thread's report into this one.
+    pub fn merge(&mut self, o: Report) {
+        self.evaluations += o.evaluations;
+        self.model_requests += o.model_requests;
+        self.distinct.extend(o.distinct);
+        for (k, v) in o.counters {
+            *self.counters.entry(k).or_insert(0) += v;
+        }
+        for s in o.samples {
+            self.sample(s);
+        }
+        for d in o.disagreements {
+            if self.disagreements.len() < self.max_list {
+                self.disagreements.push(d);
+            }
+        }
+        for f in o.oracle_failures {
+            let n = self.oracle_failures.iter().filter(|g| g["signature"] == f["signature"]).count();
+            if n < 3 && self.oracle_failures.len() < self.max_list {
+                self.oracle_failures.push(f);
+            }
+        }
+        self.notes.extend(o.notes);
+        self.notes.truncate(20);
+    }
     pub fn distinct_nontrivial(&self) -> u64 {
         self.distinct.len() as u64
     }
